@@ -17,7 +17,7 @@ C03-r5m1 C06-r5m1 C06-r5m2 C07-r5m3 C08-r5m3 C09-r5m1 C09-r5m2 C11-r5m2 C13-r5m2
 C01-r6m3 C04-r6m2 C04-r6m3 C05-r6m1 C05-r6m3 C07-r6m1 C07-r6m3 C08-r6m2 C08-r6m3 C09-r6m3 C12-r6m1 C14-r6m2 C14-r6m3 C15-r6m1 C15-r6m3 C16-r6m1 C16-r6m2 C16-r6m3
 C17-r6m1 C17-r6m2 C18-r6m1 C18-r6m2 C18-r6m3
 C02-r7m1 C04-r7m1 C05-r7m3 C06-r7m1 C06-r7m2 C06-r7m3 C07-r7m1 C07-r7m2 C07-r7m3 C08-r7m2 C08-r7m3 C09-r7m3 C11-r7m1 C11-r7m2 C12-r7m3 C13-r7m1 C13-r7m3
-C14-r7m1 C15-r7m1 C15-r7m3 C16-r7m2 C17-r7m3 C18-r7m1
+C14-r7m1 C15-r7m1 C15-r7m3 C16-r7m2 C17-r7m3 C18-r7m1 C18-r7m3
 '''.split())
 # not evaluated before the workloads were extended (evaluation harness interrupted): first-pass status unknown
 FIRST_PASS_UNKNOWN = set('C10-r3m1 C10-r3m2 C10-r3m3 C12-r3m1 C12-r3m2'.split())
